@@ -71,6 +71,15 @@ def recv_src(kind, n):
         return "[" + ", ".join(quote(c) for c in MULTI[:n]) + '].join("")'
     if kind == "ascii:lc":
         return quote(ASCII[:n].upper()) + ".lc"
+    # values that are only TREATED as an array / a str: instances of a child prototype, children of the value itself
+    if kind == "arr:new":
+        return "Arr.bear.new([" + ", ".join(str(10 + i) for i in range(n)) + "])"
+    if kind == "arr:child":
+        return "[" + ", ".join(str(10 + i) for i in range(n)) + "].bear({tag: 1})"
+    if kind == "ascii:new":
+        return "Str.bear.new(" + quote(ASCII[:n]) + ")"
+    if kind == "multi:child":
+        return quote(MULTI[:n]) + ".bear"
     if kind.startswith("arr"):
         return "[" + ", ".join(elem(kind, i) for i in range(n)) + "]"
     return quote(CHARS[kind][:n])
@@ -142,7 +151,7 @@ def run():
     reqs, meta = [], {}
     for ci, case in enumerate(cases):
         infs = [v for v in (case["a"], case["b"], case["c"]) if v in (PINF, NINF)]
-        built = ("arr:rangeA", "arr:concat", "arr:json", "ascii:join", "multi:join", "ascii:lc")
+        built = ("arr:rangeA", "arr:concat", "arr:json", "ascii:join", "multi:join", "ascii:lc", "arr:new", "arr:child", "ascii:new", "multi:child")
         for kind in ("arr", "arrnil", "arrzero", "ascii", "multi", "bound") + ((built[ci % len(built)],) if not thorough else built):
             for j in (range(3) if infs else range(1)):
                 form = 0
